@@ -210,3 +210,62 @@ func VH_C03_plain_kinds() {
 	zzvrt.Cover("high-bits", x.B >= 0x8000 && x.F < 0 && x.H < 0)
 	zzvrt.ObserveU64("d", y.D)
 }
+
+// Bytes / Text / SnakeData (tail#_ b:(bits bn) / cons#_ b:(bits bn) next:^SnakeData): n symbolic bytes
+// written into a cell that already holds `pre` bits.  Layout: the root takes the first
+// min(1023-pre, 8n) data bits, the rest goes to a chain of references of at most 1023 bits each;
+// decoding (after skipping the pre bits) gives back exactly the bytes; Text does the same for ASCII.
+func VH_C03_bytes_snake(n int, pre int) {
+	data := zzvrt.NondetBytes("data", n)
+	c := boc.NewCell()
+	_ = c.WriteUint(0, pre)
+	err := Marshal(c, Bytes(data))
+	zzvrt.Assert("encode-ok", err == nil)
+	avail := 1023 - pre
+	first := 8 * n
+	if first > avail {
+		first = avail
+	}
+	zzvrt.Assert("root-bit-count", c.BitSize() == pre+first)
+	bit := func(i int) uint64 { return uint64(data[i/8]>>(7-uint(i%8))) & 1 }
+	ok := true
+	for i := 0; i < first && pre+i < c.BitSize(); i++ {
+		ok = zzvrt.And(ok, vCellBit(c, pre+i) == bit(i))
+	}
+	zzvrt.Assert("root-bits", ok)
+	rest := 8*n - first
+	cur := c
+	off := first
+	for rest > 0 {
+		zzvrt.Assert("continuation-in-one-reference", cur.RefsSize() == 1)
+		if cur.RefsSize() != 1 {
+			return
+		}
+		cur = cur.Refs()[0]
+		take := rest
+		if take > 1023 {
+			take = 1023
+		}
+		zzvrt.Assert("continuation-bit-count", cur.BitSize() == take)
+		ok = true
+		for i := 0; i < take && i < cur.BitSize(); i++ {
+			ok = zzvrt.And(ok, vCellBit(cur, i) == bit(off+i))
+		}
+		zzvrt.Assert("continuation-bits", ok)
+		off += take
+		rest -= take
+	}
+	zzvrt.Assert("chain-ends", cur.RefsSize() == 0)
+	c.ResetCounters()
+	_ = c.Skip(pre)
+	var got Bytes
+	err = Unmarshal(c, &got)
+	zzvrt.Assert("decode-ok", err == nil)
+	same := len(got) == n
+	for i := 0; i < n && i < len(got); i++ {
+		same = zzvrt.And(same, got[i] == data[i])
+	}
+	zzvrt.Assert("roundtrip", same)
+	zzvrt.Cover("split", 8*n > avail)
+	zzvrt.ObserveInt("len", len(got))
+}
